@@ -184,7 +184,9 @@ let dispatch cmd =
          (match imp_tcp s b hops mtu uptime tape with
           | Err e -> jerr e
           | Ok (x, rest) ->
-            "{\"ok\":{\"unused_tape\":" ^ string_of_int (List.length rest) ^ ",\"bytes\":" ^ jres jtext (enc_out x) ^ "}}"))
+            "{\"ok\":{\"unused_tape\":" ^ string_of_int (List.length rest) ^ ",\"bytes\":" ^ jres jtext (enc_out x)
+            ^ ",\"supported\":" ^ jb (supported_b s) ^ ",\"coherent\":" ^ jb (coherent_b s b)
+            ^ ",\"oracle\":" ^ jres (fun (m, d) -> "[" ^ jopt jmtype m ^ "," ^ ji d ^ "]") (oracle (z_of_int 35) s x) ^ "}}"))
   | _ -> failwith ("unknown command " ^ cmd)
 
 let () =
